@@ -42,7 +42,7 @@ func runC11P(t *testing.T, c c11pCase) kit.Outcome {
 		var held []*vtCaller
 		skipped, handoffs := false, 0
 		fail := func(o kit.Outcome) kit.Outcome {
-			w.unwind(c.Stack.effTimeout() + 2*time.Second)
+			w.unwind(c.Stack.unwindWait())
 			w.flush()
 			return o
 		}
@@ -109,7 +109,7 @@ func runC11P(t *testing.T, c c11pCase) kit.Outcome {
 			}
 			line = rest
 		}
-		msg := w.unwind(c.Stack.effTimeout() + 2*time.Second)
+		msg := w.unwind(c.Stack.unwindWait())
 		w.flush()
 		if msg != "" {
 			return kit.Viol(kind+":stuck", "%s", msg)
